@@ -237,10 +237,39 @@ def tiny_constants(r):
     return prog([], [], main, ["tiny_constants"])
 
 
+def tail_into_inlined(r):
+    """a function called twice ends in a call of a helper that is called once (inlined into it);
+    another function is emitted after it"""
+    helper = fn("helper", 1, [], [wr(var("p0"), 1)], False)
+    twice = fn("twice", 1, [], [wr(var("p0"), 2), ("expr", call("helper", bin_("+", var("p0"), num(1))))], False)
+    zz = fn("zz", 1, [], [wr(bin_("+", var("p0"), num(99)))], False)
+    main = [("expr", call("twice", num(1))), ("expr", call("twice", rd(0))),
+            ("if", [(("cmp", ">", rd(3, "On"), num(0)), [("expr", call("zz", num(1))), ("expr", call("zz", num(2)))])], None)]
+    return prog([], [helper, twice, zz], main, ["tail_position_call", "inlined_fn", "called_fn"])
+
+
+def tail_from_inlined_host(r):
+    """a function called once (inlined into the main code) ends in a call of a function called elsewhere"""
+    report = fn("report", 1, [], [wr(var("p0"))], False)
+    once = fn("once", 1, [], [wr(var("p0"), 1), ("expr", call("report", bin_("+", var("p0"), num(1))))], False)
+    main = [wr(num(1), 2), ("expr", call("once", num(5))), ("expr", call("report", num(7))), ("expr", call("report", rd(0)))]
+    return prog([], [report, once], main, ["tail_position_call", "inlined_fn", "called_fn"])
+
+
+def tail_chain(r):
+    """tail call chains: f -> g -> h, each ending in a call, h plain; called from a loop"""
+    h = fn("h", 1, [], [wr(bin_("*", var("p0"), num(2)))], False)
+    g = fn("g", 1, [], [wr(var("p0"), 1), ("expr", call("h", bin_("+", var("p0"), num(1))))], False)
+    f = fn("f", 1, [], [wr(var("p0"), 2), ("expr", call("g", bin_("+", var("p0"), num(10))))], False)
+    main = [("forrange", "i0", [num(3)], [("expr", call("f", var("i0")))]), ("expr", call("g", num(5))), ("expr", call("h", num(6))),
+            ("expr", call("f", rd(0)))]
+    return prog(["i0"], [h, g, f], main, ["tail_position_call", "called_fn"])
+
+
 ALL = [param_mutation, param_mutation_twice, alias_outlives_source, alias_chain, callee_via_symbolless_function,
        callee_via_two_symbolless, nested_loops_innermost_only, while_in_for, inlined_return_register, temp_across_call,
        range_down_exact, bound_reread, early_return_with_inner_call, unused_parameter, return_call_tail,
-       suffix_named_inlined, modulo_negative, tiny_constants]
+       suffix_named_inlined, modulo_negative, tiny_constants, tail_into_inlined, tail_from_inlined_host, tail_chain]
 
 
 def programs(rng):
